@@ -58,6 +58,10 @@ pub struct HistOp {
     /// Preempt at the basic-block guards of the instrumented library (any block, also in code
     /// without hooks) and at rarely executed sites.
     pub bb: bool,
+    /// Fault: the user-supplied integral panics for cell `.0 % n` at its call number
+    /// `1 + .1 % 12`, the caller catches it (ops that evaluate user integrals, without a
+    /// concurrent partner, only). What matters is what the *following* calls return.
+    pub fault: Option<(u32, u32)>,
     /// Which of the plan's inputs (`Plan::cases`) the call is made with.
     pub case: usize,
     /// A second call running concurrently on the same pool (both are started
@@ -183,6 +187,7 @@ pub fn plan_run(verif_seed: u64, run_index: u64, lim: &Limits) -> Plan {
             sched,
             hooks: lim.allow_hooks && rng.chance(0.6),
             bb: lim.allow_hooks && !big && rng_bb.chance(if fav_bb { 0.7 } else { 0.08 }),
+            fault: if rng_bb.chance(0.07) { Some((rng_bb.below(1 << 20) as u32, rng_bb.below(12) as u32)) } else { None },
             case,
             with,
         });
@@ -262,7 +267,7 @@ fn exec_sim_inner(plan: &Plan, replay: Option<Vec<u32>>, watchdog_s: u64) -> Run
         sim.set_preempt_bb(h.bb);
         let case = &plan.cases[h.case.min(last)];
         match h.with {
-            None => outcomes.push((s_sim::run_op(case, h.op), None)),
+            None => outcomes.push((s_sim::run_op_f(case, h.op, fault_of(plan, h)), None)),
             Some((op2, c2)) => {
                 let case2 = &plan.cases[c2.min(last)];
                 let (a, b) = sim_rayon::join(|| s_sim::run_op(case, h.op), || s_sim::run_op(case2, op2));
@@ -283,7 +288,20 @@ fn exec_sim_inner(plan: &Plan, replay: Option<Vec<u32>>, watchdog_s: u64) -> Run
     r
 }
 
-pub type RefKey = (usize, OpKind);
+pub type Fault = Option<(usize, usize)>;
+pub type RefKey = (usize, OpKind, Fault);
+
+/// The fault of a history op as the library sees it (cell index, call number), if it applies.
+pub fn fault_of(plan: &Plan, h: &HistOp) -> Fault {
+    let last = plan.cases.len() - 1;
+    let n = plan.cases[h.case.min(last)].n().max(1);
+    match (h.fault, h.with, h.op) {
+        (Some((c, k)), None, OpKind::CellIntegrals | OpKind::FaceIntegrals | OpKind::FaceIntegralsSym | OpKind::WithFaces) => {
+            Some((c as usize % n, 1 + k as usize % 12))
+        }
+        _ => None,
+    }
+}
 pub type Refs = BTreeMap<RefKey, Outcome>;
 
 /// The distinct (input, op) pairs of a history, in order of first use.
@@ -291,12 +309,12 @@ pub fn ref_keys(plan: &Plan) -> Vec<RefKey> {
     let last = plan.cases.len() - 1;
     let mut v: Vec<RefKey> = vec![];
     for h in &plan.history {
-        let k = (h.case.min(last), h.op);
+        let k = (h.case.min(last), h.op, fault_of(plan, h));
         if !v.contains(&k) {
             v.push(k);
         }
         if let Some((op2, c2)) = h.with {
-            let k = (c2.min(last), op2);
+            let k = (c2.min(last), op2, None);
             if !v.contains(&k) {
                 v.push(k);
             }
@@ -311,7 +329,7 @@ pub fn reference(plan: &Plan) -> Refs {
     let mut m = BTreeMap::new();
     for k in ref_keys(plan) {
         let case = &plan.cases[k.0];
-        m.insert(k, fresh_thread(|| s_seq::run_op(case, k.1)));
+        m.insert(k, fresh_thread(|| s_seq::run_op_f(case, k.1, k.2)));
     }
     m
 }
@@ -321,12 +339,13 @@ pub fn reference(plan: &Plan) -> Refs {
 pub fn pristine_reference(plan: &Plan) -> Result<BTreeMap<RefKey, String>, String> {
     use std::io::Write;
     use std::process::{Command, Stdio};
-    let keys = ref_keys(plan);
+    // (faulted calls are not part of the cross-process comparison)
+    let keys: Vec<RefKey> = ref_keys(plan).into_iter().filter(|k| k.2.is_none()).collect();
     let req = J::obj()
         .set("cases", J::arr(plan.cases.iter().map(|c| c.to_json())))
         .set(
             "reqs",
-            J::arr(keys.iter().map(|(c, op)| J::obj().set("case", J::u(*c as u64)).set("op", J::s(op.name())))),
+            J::arr(keys.iter().map(|(c, op, _)| J::obj().set("case", J::u(*c as u64)).set("op", J::s(op.name())))),
         );
     let exe = std::env::current_exe().map_err(|e| e.to_string())?;
     let mut child = Command::new(exe)
@@ -345,7 +364,7 @@ pub fn pristine_reference(plan: &Plan) -> Result<BTreeMap<RefKey, String>, Strin
             let mut it = rest.splitn(3, ' ');
             let c: usize = it.next().and_then(|x| x.parse().ok()).ok_or("bad REF line")?;
             let op = it.next().and_then(OpKind::from_name).ok_or("bad REF op")?;
-            m.insert((c, op), it.next().unwrap_or("").to_string());
+            m.insert((c, op, None), it.next().unwrap_or("").to_string());
         }
     }
     if m.len() != keys.len() {
@@ -401,7 +420,7 @@ pub struct Violation {
 pub fn compare(plan: &Plan, outcomes: &[(Outcome, Option<Outcome>)], refs: &Refs) -> Option<Violation> {
     let last = plan.cases.len() - 1;
     for (i, (h, (o, o2))) in plan.history.iter().zip(outcomes).enumerate() {
-        let r = &refs[&(h.case.min(last), h.op)];
+        let r = &refs[&(h.case.min(last), h.op, fault_of(plan, h))];
         if let Some((component, a, b)) = o.first_diff(r) {
             return Some(Violation {
                 op_index: i,
@@ -413,7 +432,7 @@ pub fn compare(plan: &Plan, outcomes: &[(Outcome, Option<Outcome>)], refs: &Refs
             });
         }
         if let (Some((op2, c2)), Some(o2)) = (h.with, o2) {
-            let r = &refs[&(c2.min(last), op2)];
+            let r = &refs[&(c2.min(last), op2, None)];
             if let Some((component, a, b)) = o2.first_diff(r) {
                 return Some(Violation {
                     op_index: i,
@@ -454,13 +473,13 @@ pub fn run_plan(plan: &Plan, replay: Option<Vec<u32>>, watchdog_s: u64, check_re
     let first_use = |k: &RefKey| -> usize {
         plan.history
             .iter()
-            .position(|h| (h.case.min(last), h.op) == *k || h.with.map_or(false, |(o, c)| (c.min(last), o) == *k))
+            .position(|h| (h.case.min(last), h.op, fault_of(plan, h)) == *k || h.with.map_or(false, |(o, c)| (c.min(last), o, None) == *k))
             .unwrap_or(0)
     };
     if check_ref_repeat {
         let h0 = &plan.history[0];
-        let k = (h0.case.min(last), h0.op);
-        let again = s_seq::run_op(&plan.cases[k.0], h0.op);
+        let k = (h0.case.min(last), h0.op, fault_of(plan, h0));
+        let again = s_seq::run_op_f(&plan.cases[k.0], h0.op, k.2);
         if let Some((component, a, b)) = again.first_diff(&refs[&k]) {
             return (
                 empty_result(),
@@ -569,6 +588,13 @@ pub fn plan_to_json(plan: &Plan) -> J {
                     .set("sched", J::s(sched_name(h.sched)))
                     .set("hooks", J::Bool(h.hooks))
                     .set("bb", J::Bool(h.bb))
+                    .set(
+                        "fault",
+                        match h.fault {
+                            Some((c, k)) => J::arr([J::u(c as u64), J::u(k as u64)].into_iter()),
+                            None => J::Null,
+                        },
+                    )
                     .set("case", J::u(h.case as u64))
                     .set(
                         "with",
@@ -596,6 +622,13 @@ pub fn plan_from_json(j: &J) -> Result<Plan, String> {
                 sched: sched_from(h.get("sched").and_then(|o| o.as_str()).unwrap_or("seq")).ok_or("unknown sched")?,
                 hooks: h.get("hooks").and_then(|b| b.as_bool()).unwrap_or(false),
                 bb: h.get("bb").and_then(|b| b.as_bool()).unwrap_or(false),
+                fault: h.get("fault").and_then(|f| f.as_arr()).and_then(|a| {
+                    if a.len() == 2 {
+                        Some((a[0].as_u64()? as u32, a[1].as_u64()? as u32))
+                    } else {
+                        None
+                    }
+                }),
                 case: h.get("case").and_then(|p| p.as_u64()).unwrap_or(0) as usize,
                 with: match h.get("with") {
                     None | Some(J::Null) => None,
